@@ -94,11 +94,14 @@ def source_tuples(ids, max_len, *, faults=True):
 def carried_variants(ids):
     """Lists of carried stories for insert-like messages: fresh, several, with duplicates of
     existing stories at each position."""
-    X, Y = new_story('X'), new_story('Y')
-    out = [('X', [X]), ('XY', [X, Y])]
+    X, Y, Z, W = new_story('X'), new_story('Y'), new_story('Z'), new_story('W')
+    out = [('X', [X]), ('XYZ', [X, Y, Z]), ('XY', [X, Y])]
     if ids:
         d = new_story(ids[-1])
-        out += [('dup', [d]), ('X,dup,Y', [X, d, Y]), ('dup,X', [d, X]), ('X,X', [X, new_story('X')])]
+        out += [('dup', [d]), ('X,dup,Y', [X, d, Y]), ('dup,X', [d, X]), ('X,X', [X, new_story('X')]),
+                ('dup,dup', [d, new_story(ids[-1])]), ('dup,X,dup,dup', [d, X, new_story(ids[-1]), new_story(ids[-1])]),
+                ('first,X', [new_story(ids[0]), X])]
+    out.append(('XYZW', [X, Y, Z, W]))
     return out
 
 
@@ -138,7 +141,10 @@ def story_cases(ns=(0, 1, 2, 3, 4), patterns=B.PATTERNS, max_src=2, big_patterns
                 yield case('StoryInsert', f'{rl(t)}<-{lbl}', B.story_insert(t, car))
                 yield case('EAStoryInsert', f'{rl(t)}<-{lbl}',
                            B.ea('INSERT', {'storyID': t}, [car]))
-            for lbl, car in [('none', [])] + carried_variants(ids)[:3]:
+            # carried: none, one, three, two, a story re-using the target's own ID first / in the middle
+            same = [(f'same-id,X', [new_story(t), new_story('X')]), ('X,same-id,Y', [new_story('X'), new_story(t), new_story('Y')])] \
+                if isinstance(t, str) and t in ids else []
+            for lbl, car in [('none', [])] + carried_variants(ids)[:3] + same + carried_variants(ids)[-1:]:
                 yield case('StoryReplace', f'{rl(t)}<-{lbl}', B.story_replace(t, car))
                 yield case('EAStoryReplace', f'{rl(t)}<-{lbl}',
                            B.ea('REPLACE', {'storyID': t}, [car]))
@@ -201,10 +207,12 @@ def item_cases(ms=(0, 1, 2, 3, 4), item_patterns=('plain', 'lead', 'between', 't
             return {'family': 'item', 'cls': cls, 'label': f'{cls}|m={m}|{ipat}|in={sid}|{label}',
                     'ro': ro, 'msg': msg}
 
-        X, Y = new_item('NX'), new_item('NY')
-        carried = [('none', []), ('X', [X]), ('XY', [X, Y])]
+        X, Y, Z = new_item('NX'), new_item('NY'), new_item('NZ')
+        carried = [('none', []), ('X', [X]), ('XY', [X, Y]), ('XYZ', [X, Y, Z])]
         if iids:
             carried.append(('X,dup', [X, new_item(iids[0])]))
+            carried.append(('dup,X', [new_item(iids[0]), X]))
+            carried.append(('X,last,Y', [X, new_item(iids[-1]), Y]))
         # story reference variants are explored with one fixed item payload
         for sref in (UNK, BLANK, ABSENT):
             r = rl(sref)
